@@ -36,7 +36,7 @@ DBS = [None, "db1", "DB1", "Db1"]
 SCS = [None, "s1", "S1", "information_schema", "INFORMATION_SCHEMA"]
 STORAGE = ["memory", "path_fresh", "path_reopen"]
 PRIOR = ["nothing", "db", "db_schema", "other_live"]
-SECOND = ["none", "same", "other_schema", "noargs", "other_case"]
+SECOND = ["none", "same", "other_schema", "noargs", "other_case", "other_db"]
 
 
 def gen_cases(tier: str, seed: int):
@@ -44,7 +44,7 @@ def gen_cases(tier: str, seed: int):
     for st, prior, db, sc, cd, cs, second in itertools.product(
         storages, PRIOR, DBS, SCS, (True, False), (True, False), SECOND
     ):
-        if tier == "quick" and second not in ("none", "other_schema"):
+        if tier == "quick" and second not in ("none", "other_schema", "other_db"):
             continue
         yield {"storage": st, "prior": prior, "db": db, "sc": sc, "cd": cd, "cs": cs, "second": second}
     if tier == "quick":  # a slice of the file modes on every change
@@ -150,6 +150,8 @@ def _args_for(case: dict, which: str) -> tuple[str | None, str | None] | None:
         return db, sc
     if which == "other_schema":
         return db, "s2"
+    if which == "other_db":  # the same schema name in another database
+        return "db9", sc
     if which == "noargs":
         return None, None
     if which == "other_case":
